@@ -196,6 +196,18 @@ func (c *verifC25Ctx) cancel() {
 // (sched_timers_eager = 0).
 func verifC25Quiesce() { time.Sleep(time.Second) }
 
+// verifC25Quiet decides whether the unblocking event is produced only after
+// every goroutine is blocked (the operation under test is then parked at its
+// wait) or races the operation.  Parameter quiet = 0 (used together with
+// sched_timers_eager = 1, where a sleep may end at any point) switches the
+// first kind off.
+func verifC25Quiet(always bool) bool {
+	if vParam("quiet", 1) == 0 {
+		return false
+	}
+	return always || vChoose(2) == 1
+}
+
 func verifC25EOF(err error) bool {
 	return err != nil && (errors.Is(err, io.EOF) || errors.Is(err, io.ErrUnexpectedEOF))
 }
@@ -226,7 +238,7 @@ func VerifC25Read() {
 	event := vChoose(verifC25EvCount - 1)
 	// quiet: the event is produced only after every goroutine is blocked, i.e.
 	// the reader is parked inside Read; otherwise it races the call.
-	quiet := event == verifC25EvDeadlinePreset || vChoose(2) == 1
+	quiet := verifC25Quiet(event == verifC25EvDeadlinePreset)
 	vNote([...]string{"read deadline set before", "SetReadDeadline(future) meanwhile", "SetReadDeadline(past) meanwhile",
 		"Stream.Close meanwhile", "Multiplexer.Close meanwhile", "peer's close message", "peer's close-write message"}[event])
 	if event == verifC25EvDeadlinePreset {
@@ -257,6 +269,7 @@ func VerifC25Read() {
 	s.Read(buffer) // a deadlock here = Read hangs
 	returned = true
 	vAssert(returned, "Read returned")
+	vCover("read: returned")
 	if quiet {
 		switch event {
 		case verifC25EvDeadlinePreset:
@@ -301,7 +314,7 @@ func VerifC25Write() {
 		taken = <-m.writeBufferAvailable
 	}
 	event := vChoose(verifC25EvCount)
-	quiet := event == verifC25EvDeadlinePreset || vChoose(2) == 1
+	quiet := verifC25Quiet(event == verifC25EvDeadlinePreset)
 	vNote([...]string{"send window 0", "send window 1, 2 bytes", "no message buffer free"}[mode])
 	vNote([...]string{"write deadline set before", "SetWriteDeadline(future) meanwhile", "SetWriteDeadline(past) meanwhile",
 		"Stream.Close meanwhile", "Multiplexer.Close meanwhile", "peer's close message", "Stream.CloseWrite meanwhile",
@@ -343,6 +356,7 @@ func VerifC25Write() {
 	s.Write(make([]byte, length)) // a deadlock here = Write hangs
 	returned = true
 	vAssert(returned, "Write returned")
+	vCover("write: returned")
 	if quiet {
 		switch mode {
 		case 0:
@@ -390,9 +404,18 @@ func VerifC25Open() {
 	}
 	// 0 cancel, 1 multiplexer closed, 2 (mode 0) buffer returned, then cancel / (mode 1) accepted, 3 (mode 1) rejected
 	event := vChoose(3 + mode)
-	quiet := vChoose(2) == 1
+	quiet := verifC25Quiet(false)
 	vNote([...]string{"waits for a message buffer", "waits for the peer's answer"}[mode])
 	vNote([...]string{"context cancelled", "Multiplexer.Close", "buffer returned, then context cancelled / accept message", "close message (rejected)"}[event])
+	// the peer answers an open message only after it has left: the goroutine
+	// that delivers the answer first takes the open message off the pending
+	// queue, as the writer loop does
+	answer := func(bytes []byte) {
+		buffer := <-m.writeBufferPending
+		buffer.WriteTo(&verifC25Wire{})
+		m.writeBufferAvailable <- buffer
+		verifC25Feed(m, bytes)
+	}
 	go m.enqueue()
 	go func() {
 		if quiet {
@@ -411,10 +434,10 @@ func VerifC25Open() {
 				}
 				ctx.cancel()
 			} else {
-				verifC25Feed(m, verifC25Msg(func(b *messageBuffer) { b.encodeAcceptMessage(1, 2) }))
+				answer(verifC25Msg(func(b *messageBuffer) { b.encodeAcceptMessage(1, 2) }))
 			}
 		case 3:
-			verifC25Feed(m, verifC25Msg(func(b *messageBuffer) { b.encodeStreamClose(1) }))
+			answer(verifC25Msg(func(b *messageBuffer) { b.encodeStreamClose(1) }))
 		}
 	}()
 	returned := false
@@ -462,7 +485,7 @@ func VerifC25Accept() {
 	}
 	// 0 cancel, 1 multiplexer closed, 2 open message (mode 0) / buffer returned (mode 1), 3 (mode 1) peer closes, then cancel
 	event := vChoose(3 + mode)
-	quiet := vChoose(2) == 1
+	quiet := verifC25Quiet(false)
 	vNote([...]string{"waits for an inbound stream", "holds an inbound stream, waits for a message buffer"}[mode])
 	vNote([...]string{"context cancelled", "Multiplexer.Close", "open message / buffer returned", "peer closes the pending stream, then context cancelled"}[event])
 	go m.enqueue()
@@ -556,7 +579,6 @@ func VerifC25HolRecv() {
 	m := verifC25Mux(false, window, 1, 1)
 	a := verifC25Stream(m, 1, true, 0)
 	b := verifC25Stream(m, 3, true, 0)
-	go m.enqueue() // takes B's window increments
 
 	first := vRange(1, window)
 	forA := vBytes(window)
@@ -579,6 +601,7 @@ func VerifC25HolRecv() {
 	if position == 2 {
 		bytes = append(bytes, msgB...)
 	}
+	go m.enqueue()                // takes B's window increments
 	err := verifC25Feed(m, bytes) // a deadlock here = the reader loop is stuck behind A
 	vAssert(verifC25EOF(err), "hol: the reader loop goes through everything a conforming peer sent")
 	vAssert(a.receiveBuffer.Used() == window, "harness: A's receive buffer is full")
@@ -643,8 +666,8 @@ func VerifC25HolSend() {
 
 // ---------------------------------------------------------------- (c) backlog
 
-// VerifC25Backlog: the peer sends backlog+extra open messages (symbolic,
-// increasing identifiers and windows) and nobody accepts.  The real reader loop
+// VerifC25Backlog: the peer sends backlog+extra open messages (increasing
+// identifiers) and nobody accepts.  The real reader loop
 // with the real enqueue loop beside it: goes through all of them (does not wait
 // for an accept), queues the first `backlog`, and answers every further one
 // with a close message -- which, processed by the opener's reader loop, marks
@@ -655,27 +678,20 @@ func VerifC25Backlog() {
 	n := backlog + extra
 	R := verifC25Mux(true, 2, 1, backlog)
 	S := verifC25Mux(false, 2, 1, 1)
-	go R.enqueue()
 
+	// identifiers the opener uses: odd, increasing, with gaps
 	ids := make([]uint64, n)
 	opened := make([]*Stream, n)
 	var bytes []byte
-	prev := 0
+	step := uint64(2 * vParam("idstep", 1))
 	for i := 0; i < n; i++ {
-		vLabel("id")
-		x := vInt(0, 62)
-		vLabel("")
-		if i > 0 {
-			vAssume(x > prev)
-		}
-		prev = x
-		ids[i] = uint64(2*x + 1)
-		window := uint64(vU8())
-		id := ids[i]
-		bytes = append(bytes, verifC25Msg(func(b *messageBuffer) { b.encodeOpenMessage(id, window) })...)
+		id := 1 + step*uint64(i)
+		ids[i] = id
+		bytes = append(bytes, verifC25Msg(func(b *messageBuffer) { b.encodeOpenMessage(id, 2) })...)
 		// the opener's side of it, as OpenStream registers it
 		opened[i] = verifC25Stream(S, id, false, 0)
 	}
+	go R.enqueue()
 	err := verifC25Feed(R, bytes) // a deadlock here = the reader loop waits for an accept
 	vAssert(verifC25EOF(err), "backlog: the reader loop goes through all open messages")
 	vAssert(len(R.pendingInboundStreamIdentifiers) == backlog, "backlog: exactly the backlog is queued")
